@@ -548,7 +548,11 @@ func c11Apply(in *c11Inst, op c11Op) (err error) {
 
 func c11Limited() *RelayLimit { return &RelayLimit{Data: 64, Duration: 10 * time.Second} }
 
-func c11HistoryConfigs() []*c11Cfg {
+func c11HistoryConfigs() []*c11Cfg { return c11HistoryConfigsFor(vrep.Thorough()) }
+
+func c11AllHistoryConfigs() []*c11Cfg { return c11HistoryConfigsFor(true) }
+
+func c11HistoryConfigsFor(thorough bool) []*c11Cfg {
 	a4 := func(name, ip string, port int) c11AddrSpec {
 		return c11AddrSpec{Name: name, Addr: fmt.Sprintf("/ip4/%s/tcp/%d", ip, port), IP: ip}
 	}
@@ -596,7 +600,7 @@ func c11HistoryConfigs() []*c11Cfg {
 			},
 		},
 	}
-	if vrep.Thorough() {
+	if thorough {
 		cfgs = append(cfgs, &c11Cfg{
 			Name: "caps-ipv4-perip2",
 			RC:   Resources{Limit: c11Limited(), ReservationTTL: time.Hour, MaxReservations: 3, MaxCircuits: 1, BufferSize: 16, MaxReservationsPerPeer: 1, MaxReservationsPerIP: 2, MaxReservationsPerASN: 1},
